@@ -57,7 +57,9 @@ impl UserId {
             Self::parse(id)
         } else {
             localpart_is_backwards_compatible(id_str)?;
-            Ok(Self::from_borrowed(&format!("@{id_str}:{server_name}")).to_owned())
+            // The localpart and the server name can be valid on their own and still be too long
+            // together.
+            Self::parse(format!("@{id_str}:{server_name}"))
         }
     }
 
@@ -74,7 +76,7 @@ impl UserId {
             Self::parse_rc(id)
         } else {
             localpart_is_backwards_compatible(id_str)?;
-            Ok(Self::from_rc(format!("@{id_str}:{server_name}").into()))
+            Self::parse_rc(format!("@{id_str}:{server_name}"))
         }
     }
 
@@ -91,7 +93,7 @@ impl UserId {
             Self::parse_arc(id)
         } else {
             localpart_is_backwards_compatible(id_str)?;
-            Ok(Self::from_arc(format!("@{id_str}:{server_name}").into()))
+            Self::parse_arc(format!("@{id_str}:{server_name}"))
         }
     }
 
